@@ -50,6 +50,8 @@ Definition policy_requires_cert (p : client_auth) : bool :=
 
 (* alert descriptions (pkg/protocol/alert) *)
 Definition a_handshake_failure : N := 40.
+(* not an alert: the configuration itself is refused before any datagram is sent *)
+Definition a_config_refused : N := 255.
 Definition a_no_certificate : N := 41.
 Definition a_bad_certificate : N := 42.
 Definition a_insufficient_security : N := 71.
@@ -441,14 +443,15 @@ Definition flight13_certificate_verify_with : bool -> cfg13 -> pview -> verdict 
 Definition flight13_certificate_verify : cfg13 -> pview -> verdict :=
   flight13_certificate_verify_with verify_binds_scheme_to_key.
 
-(* THE SWITCH for known finding D (NOT repaired): DTLS 1.3 has no PSK mode in this stack; a client
-   configured with a PSK only but MaxVersion 1.3 silently authenticates a DTLS 1.3 server by its
-   certificate against the SYSTEM roots, with no name to check, and never consults the PSK callback.
-   [true] = a repair that refuses (PSK-only configuration + DTLS 1.3). *)
-Definition client13_refuses_psk_only : bool := false.
+(* THE SWITCH for finding F57 (repaired in /repo): DTLS 1.3 has no PSK mode in this stack; a client
+   configured with a PSK only but MaxVersion 1.3 used to authenticate a DTLS 1.3 server by its
+   certificate against the SYSTEM roots, with no name to check, and never consulted the PSK callback.
+   [true] = the repaired code: a PSK-only configuration never offers DTLS 1.3 (and, without a PSK
+   cipher suite for DTLS 1.2, is refused when the connection is created). *)
+Definition client13_refuses_psk_only : bool := true.
 
 Definition client13_psk_gate (refuse : bool) (k : cfg13) (v : pview) : verdict :=
-  check (negb refuse || p_from_client v || negb (k_psk_only k)) a_handshake_failure.
+  check (negb refuse || p_from_client v || negb (k_psk_only k)) a_config_refused.
 
 Definition flight13_top (refuse_psk_only ipname bind req : bool) (k : cfg13) (v : pview) : verdict :=
   andthen (client13_psk_gate refuse_psk_only k v) (flight13_all ipname bind req k v).
